@@ -14,6 +14,14 @@ CACHE_RULE = ("insertion histories (4-30 steps, capacity 1/2/3/4/5/8/50) over 4 
               "lists (aimed at the content: ids/authors/kinds/#x/since/until/limit 0..100, empty lists, several filters, non-nil empty tag map); non-trivial = every add and every "
               "non-empty find; distinct = distinct output line")
 
+CODEC_RULE = ("well-formed client messages of all 5 types (all optional filter parts present/absent, #a values whose d contains ':', extreme created_at) rendered with "
+              "random insignificant white space incl. before '['; every single-point corruption from 16 value-level mutations (wrong type, null, wrong length / upper-case / non-hex "
+              "ids, out-of-range and fractional kinds, negative or inverted ranges, missing / extra / duplicate members, unknown and malformed filter keys, bad a-addresses, wrong arity, "
+              "unknown / ill-typed labels) and 8 text-level ones (escaped label, truncation, invalid UTF-8, number forms, deep nesting, trailing data); server messages of all 7 types "
+              "incl. COUNT payload variants (case-insensitive keys, unknown keys, 2^64 boundary, nulls); every text is decoded by ParseClientMsg+ValidClientMsg and by json.Unmarshal "
+              "into its own and random other exported types; values of every type are round-tripped through json.Marshal; raw byte strings; non-trivial = every case; distinct = "
+              "distinct output line")
+
 PROPS = {
     "C02": {
         "lean_modules": ["MocProps.C02"],
@@ -180,5 +188,33 @@ PROPS = {
                       "model and the race detector watches the run.",
         "level_note": "Trusted: Lean kernel + standard axioms; harness/driver; the Go race detector; sync.RWMutex. Real thread interleavings are sampled, not enumerated.",
         "assumptions": ["logical-clock stamps bracket the cache call (the handler path adds a barrier COUNT that touches no cache state)"],
+    },
+    "C10": {
+        "lean_modules": ["MocProps.C10"], "theorem_files": ["MocProps/C10.lean"],
+        "gen_groups": ["Codec", "Consts"], "harness_prop": "codec", "driver_prop": "codec",
+        "monitors": ["nopanic", "roundtrip"],
+        "n_quick": 40000, "n_thorough": 400000, "thorough_seeds": 3,
+        "rule": CODEC_RULE,
+        "level_text": "Partial by nature: on JSON trees the decoders are total functions (no panic outcome exists) and the proved round trips are Event (all seven fields, event_roundtrip), "
+                      "the EVENT/AUTH/server-EVENT messages, EOSE/NOTICE/AUTH/CLOSE for every string, and COUNT replies up to 2^64-1 (count_roundtrip); arities, labels, key tests and the prefix "
+                      "order are regenerated. Filter / REQ / COUNT / OK / CLOSED round trips, decode-encode-decode and panic-freedom of the Go code on arbitrary bytes are runtime-validated: every "
+                      "generated text is decoded by the real code under recover and compared with the model value by value (0 differences required).",
+        "level_note": "Trusted: Lean kernel + standard axioms; go2lean; harness/driver; encoding/json's tokenizer, string unescaping, UTF-8 repair and reflection encoder (the tree handed to "
+                      "the model is produced by Go's own decoder). A bare top-level `null` (a no-op by Go's Unmarshaler convention) is outside the claim.",
+        "assumptions": ["OK/CLOSED values are compared in prefix-normal form", "filters are compared with their #x entries sorted by name (Go map)"],
+    },
+    "C11": {
+        "lean_modules": ["MocProps.C11"], "theorem_files": ["MocProps/C11.lean"],
+        "gen_groups": ["Valid", "Codec", "Consts"], "harness_prop": "codec", "driver_prop": "codec",
+        "monitors": ["admission"],
+        "n_quick": 40000, "n_thorough": 400000, "thorough_seeds": 3,
+        "rule": CODEC_RULE,
+        "level_text": "Full for events and the label stage, partial for filters so far: Event.Valid holds exactly for events meeting the NIP-01 constraints (validEvent_iff: 64/128 bytes of "
+                      "lower-case hex, kind in 0..65535, tags with a non-empty name), ids/pubkeys/sigs/kinds/tags each characterised (validID_iff ... validTag_iff), the label stage accepts any "
+                      "JSON white space before and after '[' (labelOf_wellformed; the regexp is regenerated and pinned). Every validator condition is regenerated from the source, so a flipped "
+                      "operator changes the model the theorems are about. Filter validation (incl. a-addresses) and the composition with parsing are tied by the differential run and judged by "
+                      "the monitors: generated well-formed messages must be parsed and valid, and nothing judged valid may break the constraints (`msgOkB`).",
+        "level_note": "Trusted: Lean kernel + standard axioms; go2lean; harness/driver; Go regexp semantics of \\s and \\w (hand-translated scanner, pinned pattern); strconv.ParseInt (hand-modelled).",
+        "assumptions": ["a JSON null in place of an object is not claimed either way", "signed or zero-padded kind numbers inside an a value are not claimed either way"],
     },
 }
